@@ -161,11 +161,11 @@ func (s *reportSim) spawnWarrior(wi int, startOffset Address) error {
 	}
 
 	w.pq = newProcessQueue(s.maxProcs)
-	w.pq.Push(startOffset + Address(w.data.Start))
+	w.pq.Push((startOffset + Address(w.data.Start)) % s.m)
 	w.state = WarriorAlive
 	s.warriorLivingCount += 1
 
-	s.Report(Report{Type: WarriorSpawn, WarriorIndex: w.index, Address: startOffset})
+	s.Report(Report{Type: WarriorSpawn, WarriorIndex: w.index, Address: startOffset % s.m})
 
 	return nil
 }
